@@ -70,6 +70,22 @@ func c20Setup() error {
 			c20Inputs = append(c20Inputs, in)
 		}
 	}
+	// init segments with ac-3 / ec-3 / stpp / wvtt / hev1 sample entries, built once from fixed seeds through the public API
+	for seed := uint64(1); seed <= 12; seed++ {
+		rr := sim.NewScratchRun(sim.NewTape(seed))
+		var init *mp4.InitSegment
+		func() {
+			defer func() { recover() }()
+			init, _, _ = c19Build(rr)
+		}()
+		if init == nil {
+			continue
+		}
+		var b bytes.Buffer
+		if init.Encode(&b) == nil {
+			c20Inputs = append(c20Inputs, c20Input{name: fmt.Sprintf("built-init-%d", seed), master: b.Bytes()})
+		}
+	}
 	// Annex B byte streams
 	for _, p := range []string{"avc/testdata/blackframe.264", "avc/testdata/two-frames.264", "cmd/mp4ff-nallister/testdata/4pics.264"} {
 		if b, err := readRepoFile(p); err == nil {
